@@ -242,10 +242,31 @@ class SimEnv:
         return SimFile(builtins.open(file, mode, *a, **kw), file, self, is_output=is_out)
 
     # ---- run ---------------------------------------------------------------------------------------------------
-    def run(self):
+    def apply_files(self, update):
+        """Change the scratch file system between two commands of one process (durable state that changed)."""
+        for rel, f in (update or {}).items():
+            p = os.path.join(self.dir, rel)
+            if os.path.islink(p) or os.path.isfile(p):
+                os.unlink(p)
+            elif os.path.isdir(p):
+                shutil.rmtree(p)
+            kind = f.get("kind", "file")
+            if kind == "missing":
+                continue
+            os.makedirs(os.path.dirname(p), exist_ok=True)
+            if kind == "dir":
+                os.makedirs(p, exist_ok=True)
+            elif kind == "symlink_dangling":
+                os.symlink(os.path.join(self.dir, "__nowhere__"), p)
+            else:
+                with open(p, "wb") as fh:
+                    fh.write(unb64(f["b64"]) if "b64" in f else f.get("text", "").encode("utf-8"))
+
+    def run(self, reuse_dir=False):
         import json_to_models.cli as cli
         env = self
-        self.setup_fs()
+        if not reuse_dir:
+            self.setup_fs()
         argv = [self.subst(a) for a in self.spec["argv"]]
         out_path = self.subst(self.spec.get("out_path")) if self.spec.get("out_path") else None
         existing = self.spec.get("out_existing_b64")
@@ -372,6 +393,29 @@ class SimEnv:
     def cleanup(self):
         if self.dir:
             shutil.rmtree(self.dir, ignore_errors=True)
+
+
+def job_cli_sequence(spec):
+    """Two commands in ONE process and one directory: spec (a good command), then spec["then"] = {"files": update,
+    "argv": optional other argv, "out_existing_b64": ...}.  Returns the record of the second command (and the first's
+    status)."""
+    from .pipeline import set_schedule
+    set_schedule(None)
+    env = SimEnv(spec)
+    try:
+        first = env.run()
+        then = spec["then"]
+        env.apply_files(then.get("files"))
+        env.spec = dict(spec, argv=then.get("argv", spec["argv"]), faults=None, crash_at=None,
+                        out_existing_b64=then.get("out_existing_b64"))
+        env.events = Events()
+        env.plan = FaultPlan(None, env.events)
+        env.glob_calls = []
+        second = env.run(reuse_dir=True)
+        second["first_status"] = first["status"]
+        return second
+    finally:
+        env.cleanup()
 
 
 def job_cli(spec):
